@@ -48,7 +48,7 @@ func init() {
 // c07Corpus expands a part of the corpus with tag assignments and action shapes.
 func c07Corpus(w *Worker, base []*genCase) []*genCase {
 	var out []*genCase
-	stride := 9
+	stride := 14
 	if w.Thorough() {
 		stride = 1
 	}
